@@ -238,14 +238,14 @@ var recOddLeaves = []reflect.Type{
 	reflect.TypeOf(&pc.Setter{}), reflect.TypeOf(time.Time{}), reflect.TypeOf([]json.Number{}),
 }
 
-// recSelfEmb: types that embed a pointer to themselves (directly, or two types each other). Rare in
-// the stream: each costs a child process as long as C06rec-self-embedding stands.
+// recSelfEmb: types that embed a pointer to themselves (directly, or two types each other). Until
+// /repo 25154ae each of them killed the child process (C06rec-self-embedding, fixed).
 var recSelfEmb = []reflect.Type{reflect.TypeOf(pc.SelfEmb{}), reflect.TypeOf(pc.EmbA{}), reflect.TypeOf(pc.EmbB{})}
 
 // wildT: a random target type, inside or outside of what the recomposer supports.
 func wildT(r *lib.Rng, depth int) reflect.Type {
 	n := r.Intn(100)
-	if n == 99 && r.Intn(12) == 0 {
+	if n == 99 {
 		return lib.Pick(r, recSelfEmb)
 	}
 	switch {
